@@ -7,7 +7,7 @@ set_option linter.unusedSectionVars false
 set_option linter.unusedVariables false
 namespace C19
 open Canvas Canvas.C19 GenK
-variable {K : Type} [Field K] [LinearOrder K] [IsStrictOrderedRing K] [Env K] (cd : K → List K → K → List K × Bool)
+variable {K : Type} [Field K] [LinearOrder K] [IsStrictOrderedRing K] [Env K] (cd : K → K → List K → K → List K × Bool)
 
 def identK : Mat K := ⟨1, 0, 0, 0, 1, 0⟩
 
